@@ -615,6 +615,14 @@ func checkArity(p *an.Prog, r *an.Run) {
 // ---------------------------------------------------------------------------
 
 func runC17(p *an.Prog, r *an.Run, tier string) {
+	checkNoReadaheadLoss(p, r)
+	runC17rest(p, r, tier)
+}
+
+// checkNoReadaheadLoss: a codec that decodes one message at a time from a stream it keeps must keep what the decoder
+// read ahead (shared with C10 and C14: a request or reply lost or reordered inside the codec is a lost update / a call
+// that never gets its reply).
+func checkNoReadaheadLoss(p *an.Prog, r *an.Run) {
 	// ---- no-readahead-loss
 	n := 0
 	for _, fn := range p.Repo {
@@ -714,6 +722,46 @@ func runC17(p *an.Prog, r *an.Run, tier string) {
 							}
 						}
 						kept = true
+						// what was carried over is read before anything new from the connection: where the two are joined
+						// (io.MultiReader), the saved remainder comes first — the other order delivers later bytes ahead of
+						// older ones (messages out of order, or a buffered message stuck until the connection ends)
+						if savedFld := an.FieldOf(st.Addr); savedFld != nil {
+							for _, rf2 := range region {
+								for _, mc := range an.Calls(rf2, false) {
+									if !an.IsFunc(an.CallObj(mc), "io", "MultiReader") || len(mc.Common().Args) != 1 {
+										continue
+									}
+									els, ok := variadicElems(mc.Common().Args[0])
+									if !ok {
+										continue
+									}
+									savedAt, otherAt := -1, -1
+									for i, e := range els {
+										de := p.DerivesIn(fn, 1, e)
+										isSaved, isOther := false, false
+										for _, nd := range de.Nodes {
+											if fv := an.FieldOf(nd); fv != nil {
+												if fv == savedFld {
+													isSaved = true
+												} else if hasReadMethod(fv.Type()) {
+													isOther = true
+												}
+											}
+										}
+										if isSaved && savedAt < 0 {
+											savedAt = i
+										}
+										if isOther && !isSaved && otherAt < 0 {
+											otherAt = i
+										}
+									}
+									if savedAt >= 0 && otherAt >= 0 && otherAt < savedAt {
+										kept = false
+										why = append(why, "io.MultiReader at "+p.Pos(mc.Pos())+" reads the connection before the carried-over remainder: bytes that arrived earlier are delivered after later ones")
+									}
+								}
+							}
+						}
 						// the save itself, or the call (in fn) of the helper that performs it on all of its paths
 						gate := ssa.Instruction(st)
 						if st.Parent() != fn {
@@ -749,7 +797,9 @@ func runC17(p *an.Prog, r *an.Run, tier string) {
 		}
 	}
 	r.Floor("stream-decoders", n, 1)
+}
 
+func runC17rest(p *an.Prog, r *an.Run, tier string) {
 	// ---- one-encode (stream codec)
 	if wm := p.Method("jsonrpc2", "jsonCodec", "WriteMessage"); wm != nil {
 		r.Analysed(an.FuncName(wm))
@@ -773,6 +823,60 @@ func runC17(p *an.Prog, r *an.Run, tier string) {
 		r.Check(ok, "one-encode", an.FuncName(wm), wm.Pos(), "one Encode (one Write) of the message, error returned", "jsonCodec.WriteMessage does not write the message with exactly one Encode of it (or drops the error): messages could be written partially or twice")
 	} else {
 		r.Undec("one-encode", "jsonCodec.WriteMessage", token.NoPos, "anchor not found")
+	}
+
+	// ---- http-limits: the optional size limit of the HTTP server and client never loses a message that is within it:
+	// a body is refused for its length only when the announced length is *greater* than the configured maximum, and
+	// where the body is read through a LimitReader the limit is that configured maximum (not the message's own
+	// Content-Length, which is -1 for a chunked reply: nothing is read then)
+	{
+		var hb []string
+		nLim := 0
+		for _, fn := range p.Repo {
+			if fn.Pkg == nil || fn.Pkg.Pkg.Path() != pkgRPC || p.IsTestFunc(fn) || fn.Parent() != nil {
+				continue
+			}
+			isMaxField := func(v ssa.Value) bool {
+				fv := an.FieldOf(stripLoad(v))
+				return fv != nil && fv.Name() == "MaxContentLength"
+			}
+			isMsgLen := func(v ssa.Value) bool {
+				fv := an.FieldOf(stripLoad(v))
+				return fv != nil && fv.Name() == "ContentLength"
+			}
+			for _, c := range an.Calls(fn, false) {
+				if an.IsFunc(an.CallObj(c), "io", "LimitReader") && len(c.Common().Args) == 2 {
+					nLim++
+					if !isMaxField(c.Common().Args[1]) {
+						hb = append(hb, an.FuncName(fn)+" reads the body through a LimitReader at "+p.Pos(c.Pos())+" whose limit is not the configured MaxContentLength: a message within the limit can be cut short or not read at all")
+					}
+				}
+			}
+			an.AllInstrs(fn, func(in ssa.Instruction) {
+				iff, ok := in.(*ssa.If)
+				if !ok {
+					return
+				}
+				rel, ok := an.NormCond(iff.Cond)
+				if !ok {
+					return
+				}
+				l, r0, op := rel.L, rel.R, rel.Op
+				if isMaxField(l) && isMsgLen(r0) {
+					l, r0 = r0, l
+					op = rel.Swap().Op
+				}
+				if !(isMsgLen(l) && isMaxField(r0)) {
+					return
+				}
+				nLim++
+				if op != token.GTR {
+					hb = append(hb, an.FuncName(fn)+" refuses a body at "+p.Pos(iff.Pos())+" when its length "+op.String()+" MaxContentLength: a message of exactly the permitted size is turned away (refuse only when greater)")
+				}
+			})
+		}
+		r.Floor("http-limit-sites", nLim, 4)
+		r.Check(len(hb) == 0, "http-limits", "jsonrpc2", token.NoPos, "bodies within MaxContentLength are read in full", "%s", strings.Join(dedup(hb), "; "))
 	}
 
 	// ---- payload-verbatim: every codec reads and writes jsonrpc2.Message; whatever JSON a message carries beyond its
